@@ -52,6 +52,14 @@ def _tok_eq(a, b):
 def equal(a, b):
     if a == b:
         return True
+    if a.startswith("F:") and b.startswith("F:"):
+        # `H` cases: C19 constrains the pixel layout derived from a header (P:) against the layout of the detected
+        # format (FP:) and the metadata of that format — not WHICH of several formats with identical layout and
+        # metadata is detected (e.g. premultiplied vs plain BC2 for a typeless DXGI code): the name of the detected
+        # format is ignored when everything else on the line agrees.
+        ta, tb = a.split(" "), b.split(" ")
+        return len(ta) == len(tb) and len(ta) > 1 and not ta[0].startswith("F:E:") and not tb[0].startswith("F:E:") \
+            and ta[1:] == tb[1:]
     if not a.startswith("adv="):
         return False
     ta, tb = a.split(), b.split()
@@ -83,3 +91,4 @@ def classify(c, r):
         changed = "changed" if ("C=0" in p or "A=0" in p or "CA=0" in p) else "same"
         return f"T {p[0]} {changed}"
     return k
+
